@@ -185,6 +185,14 @@ func runC09(c *Ctx, idx int, o *Obs) {
 		cutoff = 0.5 + r.Float64()/2
 		ntrees = 1 + r.Intn(40)
 	}
+	// large collections of small trees: counts beyond one byte, frequencies with many distinct values
+	switch idx % 40 {
+	case 6:
+		ntax, ntrees = 4+r.Intn(6), gen.Pick(r, 256, 512)
+	case 7:
+		ntax, ntrees = 4+r.Intn(6), gen.Pick(r, 255, 257, 300, 1000)
+	}
+	o.AddSet("list:collection_sizes", fmt.Sprint(ntrees))
 	lenCls := gen.Pick(r, "len", "tie")
 	base := gen.Tree(r, gen.Opts{N: ntax, Shape: gen.Pick(r, "random", "random", "caterpillar", "balanced"), RootDeg: 3,
 		MultiP: gen.Pick(r, 0.0, 0.0, 0.2), Lens: "all", LenCls: lenCls, Names: gen.Pick(r, "simple", "simple", "hostile")})
